@@ -15,7 +15,8 @@ RULE = (
     "axis directions) of the same geometry, enumerated completely per template and location, run through "
     "compatible_with, get_transform_to and a real Output>>Input link (with time axis, optionally masked, "
     "optionally behind a pass-through adapter); compat_gen: pairs of equal / perturbed geometries for the "
-    "'exactly when' direction. non-trivial = at least 2 non-degenerate axes and the two layouts differ in at "
+    "'exactly when' direction; compat_long_enum: axes of 10^3..1.3*10^5 nodes against copies shifted by "
+    "0.01..1 cell along the long axis (must be incompatible) or re-laid out (must be compatible). non-trivial = at least 2 non-degenerate axes and the two layouts differ in at "
     "least one flag (canon: one non-default flag). distinct = distinct canonical JSON of the case."
 )
 ASSUMPTIONS = [
@@ -147,7 +148,7 @@ def check_pair(case, ctx):
 
     # same set of data locations by construction -> must be compatible (both directions)
     if not ga.compatible_with(gb) or not gb.compatible_with(ga):
-        ctx.violation("compatible-false-negative", f"same data locations reported incompatible: {a} / {b}")
+        ctx.violation("compatible-false-negative", f"same data locations reported incompatible: {a} / {b} (length scale {sc})")
         return
     tr = ga.get_transform_to(gb)
     xa, xb = field(LA), field(LB)
@@ -278,12 +279,16 @@ def compat_case(draw):
             last.append(last[-1] + step)
     elif kind == "independent":
         b = draw(hg.grid_cfg(min_len=1, max_len=3))
-    return {"a": a, "b": b, "kind": kind}
+    # the same pair in another length unit (micrometre .. kilometre cells): compatibility must not depend on it
+    return {"a": a, "b": b, "kind": kind, "scale": draw(st.sampled_from([1.0, 1.0, 1.0, 1.0e-6, 1.0e-5, 1.0e-3, 1.0e3]))}
 
 
 def check_compat(case, ctx):
     a, b = case["a"], case["b"]
-    ga, gb = hg.build(a), hg.build(b)
+    sc = case.get("scale", 1.0)
+    ga, gb = hg.build(hg.scaled(a, sc)), hg.build(hg.scaled(b, sc))
+    if sc != 1.0:
+        ctx.event(f"length-scale={sc}")
     sa, sb = _locset(a), _locset(b)
     same_kind = hg.flags(a)[2] == hg.flags(b)[2]
     same_dim = len(hg.user_axes(a)) == len(hg.user_axes(b))
@@ -301,12 +306,12 @@ def check_compat(case, ctx):
         ctx.event("expected-compatible")
         ctx.nontrivial(hg.n_nondegenerate(a) >= 2 and not _layout_equal(a, b))
         if not got:
-            ctx.violation("compatible-false-negative", f"same data locations reported incompatible: {a} / {b}")
+            ctx.violation("compatible-false-negative", f"same data locations reported incompatible: {a} / {b} (length scale {sc})")
     elif sa != sb:
         ctx.event("expected-incompatible")
         ctx.nontrivial(hg.n_nondegenerate(a) >= 2)
         if got:
-            ctx.violation("compatible-false-positive", f"different data locations reported compatible: {a} / {b}")
+            ctx.violation("compatible-false-positive", f"different data locations reported compatible: {a} / {b} (length scale {sc})")
     else:
         ctx.event("unspecified(same location set, different description)")
 
@@ -329,6 +334,37 @@ def compat_large_case(draw):
     return {"a": a, "b": b, "kind": "large-shift" if shift else "large-same"}
 
 
+def check_compat_long(case, ctx):
+    """long axes (10^3 .. 10^5 nodes): a copy shifted by a fraction of a cell (or a whole cell) along the long axis
+    has different data locations everywhere -> must be incompatible; the unshifted copy in another layout must be
+    compatible. Expectation is analytical (shift != 0), no location sets are built."""
+    a, b, shift = case["a"], case["b"], case["shift"]
+    ga, gb = hg.build(a), hg.build(b)
+    got, got_r = bool(ga.compatible_with(gb)), bool(gb.compatible_with(ga))
+    ctx.event(f"long-axis n={max(a['dims'])} shift={shift}")
+    ctx.nontrivial(True)
+    if got != got_r:
+        ctx.violation("compatible-asymmetric", f"compatible_with not symmetric for dims {a['dims']} shift {shift}")
+    elif shift == 0 and not got:
+        ctx.violation("compatible-false-negative", f"same data locations reported incompatible: dims {a['dims']} layouts {hg.flags(a)} / {hg.flags(b)}")
+    elif shift != 0 and got:
+        ctx.violation("compatible-false-positive-long-axis", f"grid with dims {a['dims']} and its copy shifted by {shift} cell(s) along the long axis reported compatible")
+
+
+def enum_compat_long(tier):
+    for n in (1001, 20001, 50001, 100001, 131073):
+        for dims in ([n], [3, n], [n, 2, 2]):
+            k = dims.index(n)
+            dim = len(dims)
+            for shift in (0.0, 0.01, 0.3, 0.5, 1.0, -1.0):
+                for loc in ("CELLS", "POINTS"):
+                    base = {"cls": "uni", "dims": dims, "spacing": [1.0] * dim, "origin": [0.0] * dim, "inc": [True] * dim,
+                            "order": "F", "rev": False, "loc": loc}
+                    b2 = dict(base, origin=[shift if i == k else 0.0 for i in range(dim)])
+                    other = hg.same_geometry_layout(b2, "C", dim > 1, [i == k for i in range(dim)]) if shift in (0.0, 0.5) else b2
+                    yield {"a": base, "b": other, "shift": shift}
+
+
 def parts():
     return [
         Part("canon_enum", check_canon, enumerate=lambda tier: hg.enum_layouts(), exhaustive=True),
@@ -336,5 +372,6 @@ def parts():
         Part("pairs_enum", check_pair, enumerate=enum_pairs, exhaustive=True),
         Part("pairs_gen", check_pair, strategy=pair_case(), budget={"quick": 1200, "thorough": 30000}),
         Part("compat_gen", check_compat, strategy=compat_case(), budget={"quick": 1500, "thorough": 30000}),
+        Part("compat_long_enum", check_compat_long, enumerate=enum_compat_long, exhaustive=True),
         Part("compat_large", check_compat, strategy=compat_large_case(), budget={"quick": 300, "thorough": 6000}),
     ]
